@@ -596,6 +596,10 @@ type hubStep struct {
 
 // hubObs is what the predicates see for one executed step.
 type hubObs struct {
+	// Refetched: a pass that did not contact a location which the model's pass fetches was run once more: hits of that second pass
+	// (nil when the first pass fetched everything). "Not fetched" is only claimed for a location that BOTH passes left alone.
+	Refetched      map[string]int
+	Dims           map[string]any // concretisation dimensions of the world (for the replay record)
 	Cfg            HubCfg
 	Op             []any
 	Exp            hubExpect
@@ -635,7 +639,7 @@ func parseDoc(v any) hubDoc {
 
 // runHubWalk replays one walk of the Revocation graph on a fresh real validator.
 // It returns the number of edges executed before the walk ended (drift ends a walk early).
-func runHubWalk(c *vk.Ctx, cfg HubCfg, walk []*graph.Edge, shape Shape, seed int64, preds ...hubPredicate) int {
+func runHubWalk(c *vk.Ctx, cfg HubCfg, walk []*graph.Edge, shape Shape, seed int64, preds ...hubPredicate) (done int) {
 	h, err := newHubWorld(cfg, shape, seed)
 	if err != nil {
 		c.Infra("hub world: %v", err)
@@ -649,6 +653,7 @@ func runHubWalk(c *vk.Ctx, cfg HubCfg, walk []*graph.Edge, shape Shape, seed int
 	// between any two steps other certificates may be presented: handshakes that change nothing in the specification (a
 	// certificate without distribution points, one whose distribution points are unusable, no chain at all) are woven into the
 	// walk - whatever they leave behind in the code must not change what the following steps do
+	extra := 0 // woven steps are not charged to the caller's edge budget
 	if len(walk) > 2 {
 		wr := rand.New(rand.NewSource(seed*31 + 5))
 		var woven []*graph.Edge
@@ -670,10 +675,12 @@ func runHubWalk(c *vk.Ctx, cfg HubCfg, walk []*graph.Edge, shape Shape, seed int
 			around := pass && wr.Intn(2) == 0
 			if around {
 				woven = append(woven, loopsAt(e.From)...)
+				extra += len(loopsAt(e.From))
 			}
 			woven = append(woven, e)
 			if around {
 				woven = append(woven, loopsAt(e.To)...)
+				extra += len(loopsAt(e.To))
 				continue
 			}
 			if wr.Intn(3) != 0 {
@@ -681,12 +688,17 @@ func runHubWalk(c *vk.Ctx, cfg HubCfg, walk []*graph.Edge, shape Shape, seed int
 			}
 			if loops := loopsAt(e.To); len(loops) > 0 {
 				woven = append(woven, loops[wr.Intn(len(loops))])
+				extra++
 			}
 		}
 		walk = woven
 	}
+	defer func() {
+		if n := len(walk); n > 0 && extra > 0 {
+			done -= done * extra / n
+		}
+	}()
 	var hist []hubStep
-	done := 0
 	for _, e := range walk {
 		var op []any
 		json.Unmarshal(e.Op, &op)
@@ -778,6 +790,19 @@ func runHubWalk(c *vk.Ctx, cfg HubCfg, walk []*graph.Edge, shape Shape, seed int
 		}
 		obs.Loaded = h.realLoaded()
 		obs.Fetched = map[string]int{"D": h.hits("D") - before["D"], "U": h.hits("U") - before["U"]}
+		obs.Dims = map[string]any{"chain": h.chainVariant, "cdp": h.cdpVariant, "names": h.nameVariant, "same_bytes": h.sameBytes, "path_d": h.pathD, "path_u": h.pathU, "walk_seed": seed}
+		if name == "refresh" && !h.poisoned {
+			for _, l := range []string{"D", "U"} {
+				if exp.Fetch[l] > 0 && obs.Fetched[l] == 0 && !(l == "U" && cfg.Conf == "file") {
+					// once more, before anybody says "this CRL is no longer fetched"
+					b2 := map[string]int{"D": h.hits("D"), "U": h.hits("U")}
+					h.w.RefreshAll()
+					obs.Refetched = map[string]int{"D": h.hits("D") - b2["D"], "U": h.hits("U") - b2["U"]}
+					real["refetched_by_a_second_pass"] = obs.Refetched
+					break
+				}
+			}
+		}
 		obs.SawRej = h.sawRej
 		obs.OcspHits = h.org.Hits(pathOCSP) - ocspBefore
 		obs.ChainVariant = h.chainVariant
@@ -974,7 +999,7 @@ func hubDrift(cfg HubCfg, name string, o *hubObs) string {
 
 // hubReplay is the record written for a violation.
 func hubReplay(o *hubObs) map[string]any {
-	return map[string]any{"cfg": o.Cfg, "shape": o.Shape, "steps": o.Hist}
+	return map[string]any{"cfg": o.Cfg, "shape": o.Shape, "world": o.Dims, "steps": o.Hist}
 }
 
 // ---------------------------------------------------------------------------------------------
